@@ -145,13 +145,17 @@ def build_docs(cfg: Dict[str, Any]) -> List[str]:
         nimap = {int(p): list(names) for (p, names) in cfg["ni"][i - 1]}
         for p in (reversed(cfg["parents"][i - 1]) if cfg.get("rev") else cfg["parents"][i - 1]):
             names = nimap.get(int(p), [])
-            lay.parent_refs.append(og.parent_ref(f"L{p}.id", types[p - 1], "DLC",
+            lay.parent_refs.append(og.parent_ref(f"L{p}.id", types[p - 1], f"DLC{p}" if cfg.get("rev") else "DLC",
                                                  ni_diag_comms=[x for n in names for x in (n, f"{n}_job")],
                                                  ni_dops=names, ni_tables=names, ni_gnrs=names))
         if t != "ECU-SHARED-DATA":
             for key in cfg["cps"][i - 1]:
                 lay.comparam_refs.append(comparam_ref(list(key), i))
         layers.append(lay)
+    if cfg.get("rev"):
+        # one container per layer, children in front of their parents (the order in which documents are resolved and finalized
+        # must not matter)
+        return [CS_DOC, subset_doc()] + [og.container(f"DLC{i}", f"DLC{i}", [layers[i - 1]]) for i in range(len(layers), 0, -1)]
     return [CS_DOC, subset_doc(), og.container("DLC", "DLC", layers)]
 
 
@@ -203,7 +207,7 @@ def process(cfgs: List[Dict[str, Any]]) -> Dict[str, Any]:
     from odxtools.exceptions import DecodeError, OdxError
     fails: List[Tuple[str, str, Dict[str, Any]]] = []
     st = {"configs": 0, "clash_configs": 0, "views": 0, "excluded": 0, "overridden": 0, "decodes": 0, "comparam_lookups": 0,
-          "accessor_calls": 0, "default_fallbacks": 0, "protocol_objects": 0, "payload_sizes": 0, "absent_accessors": 0}
+          "accessor_calls": 0, "default_fallbacks": 0, "protocol_objects": 0, "payload_sizes": 0, "absent_accessors": 0, "refreshes": 0, "edits": 0}
 
     def fail(prop: str, clause: str, cfg: Dict[str, Any], detail: Dict[str, Any]) -> None:
         if len(fails) < 300:
@@ -229,18 +233,40 @@ def process(cfgs: List[Dict[str, Any]]) -> Dict[str, Any]:
             continue
         n = len(cfg["types"])
         layers = {i: db.diag_layers[f"L{i}"] for i in range(1, n + 1)}
-        for i in range(1, n + 1):
+        def eff_check(i: int, eff: List[Any], phase: str) -> None:
+            eff_real = {(CP_KEY(cp), cp.protocol_snref or ""): cp for cp in layers[i].comparam_refs}
+            for (key, own) in eff:
+                k2 = (key[0], key[1])
+                got = eff_real.get(k2)
+                if (own == 0) != (got is None):
+                    fail("C15", "effective_set", cfg, {"layer": i, "key": key, "expected_owner": own, "present": got is not None,
+                                                       "phase": phase})
+                elif got is not None and _cp_owner(got) != own:
+                    fail("C15", "effective_owner", cfg, {"layer": i, "key": key, "expected_owner": own, "got_owner": _cp_owner(got),
+                                                         "phase": phase})
+
+        def views(i: int, phase: str) -> None:
             real = real_views(layers[i])
             for (name, with_ni, without_ni) in cfg["view"][i - 1]:
-                st["views"] += 1
-                st["excluded"] += with_ni != without_ni
-                st["overridden"] += with_ni == i and any(int(p) for p in cfg["parents"][i - 1])
                 for cat in CATS_WITH_NI + CATS_NO_NI:
                     want = with_ni if cat in CATS_WITH_NI else without_ni
                     got = real[cat].get(name, 0)
                     if got != want:
                         fail("C09", "visible_set", cfg, {"layer": i, "category": cat, "name": name, "expected_owner": want,
-                                                         "got_owner": got})
+                                                         "got_owner": got, "phase": phase})
+            # nothing else is visible (an object listed twice shows up under a second name)
+            known = {name for (name, _w, _wo) in cfg["view"][i - 1]}
+            for cat in CATS_WITH_NI + CATS_NO_NI:
+                extra = sorted(set(real[cat]) - known)
+                if extra:
+                    fail("C09", "visible_set", cfg, {"layer": i, "category": cat, "name": extra[0], "expected_owner": 0,
+                                                     "got_owner": real[cat][extra[0]], "phase": phase, "unexpected_names": extra})
+        for i in range(1, n + 1):
+            views(i, "load")
+            for (name, with_ni, without_ni) in cfg["view"][i - 1]:
+                st["views"] += 1
+                st["excluded"] += with_ni != without_ni
+                st["overridden"] += with_ni == i and any(int(p) for p in cfg["parents"][i - 1])
                 # behaviour: the request of the visible definition decodes on this layer, nothing else does
                 sid = 0x22 if name == "o" else 0x2E
                 for k in range(1, n + 1):
@@ -257,14 +283,7 @@ def process(cfgs: List[Dict[str, Any]]) -> Dict[str, Any]:
             if not cfg["eff"][i - 1] or cfg["types"][i - 1] == "ECU-SHARED-DATA":
                 continue
             lay = layers[i]
-            eff_real = {(CP_KEY(cp), cp.protocol_snref or ""): cp for cp in lay.comparam_refs}
-            for (key, own) in cfg["eff"][i - 1]:
-                k2 = (key[0], key[1])
-                got = eff_real.get(k2)
-                if (own == 0) != (got is None):
-                    fail("C15", "effective_set", cfg, {"layer": i, "key": key, "expected_owner": own, "present": got is not None})
-                elif got is not None and _cp_owner(got) != own:
-                    fail("C15", "effective_owner", cfg, {"layer": i, "key": key, "expected_owner": own, "got_owner": _cp_owner(got)})
+            eff_check(i, cfg["eff"][i - 1], "load")
             # accessors of communication parameters that no layer defines: "not used", never an exception; and whether CAN
             # is in use is whether a response-ID table is in effect for that protocol
             for proto_ in ("", "L1"):
@@ -363,6 +382,39 @@ def process(cfgs: List[Dict[str, Any]]) -> Dict[str, Any]:
                 except Exception as e:  # noqa: BLE001
                     fail("C15", "accessor_raises", cfg, {"layer": i, "name": name, "protocol": proto, "exc": type(e).__name__,
                                                          "msg": str(e)[:100], "omitted": bool(own % 2)})
+        # ---- resolving everything a second time leaves every view (and the effective communication parameters) as they were
+        before_cp = {i: sorted((CP_KEY(cp), cp.protocol_snref or "", _cp_owner(cp)) for cp in getattr(layers[i], "comparam_refs", []))
+                     for i in range(1, n + 1) if cfg["types"][i - 1] != "ECU-SHARED-DATA"}
+        try:
+            db.refresh()
+        except Exception as e:  # noqa: BLE001
+            fail("C09", "refresh_raises", cfg, {"exc": type(e).__name__, "msg": str(e)[:200]})
+            continue
+        st["refreshes"] += 1
+        layers = {i: db.diag_layers[f"L{i}"] for i in range(1, n + 1)}
+        for i in range(1, n + 1):
+            views(i, "refresh")
+            if i in before_cp:
+                after = sorted((CP_KEY(cp), cp.protocol_snref or "", _cp_owner(cp)) for cp in layers[i].comparam_refs)
+                if after != before_cp[i]:
+                    fail("C15", "effective_set", cfg, {"layer": i, "phase": "refresh", "before": before_cp[i], "after": after,
+                                                       "key": ["", ""], "expected_owner": -1, "present": True})
+        # ---- the communication parameters of one layer are taken away and everything is resolved again: every layer has the
+        # parameters of the hierarchy as it is now (the configuration of the family that lacks them)
+        ed = cfg.get("edit")
+        if ed:
+            raw = layers[ed["layer"]].diag_layer_raw
+            del raw.comparam_refs[:]
+            try:
+                db.refresh()
+            except Exception as e:  # noqa: BLE001
+                fail("C09", "refresh_raises", cfg, {"exc": type(e).__name__, "msg": str(e)[:200], "phase": "edit"})
+                continue
+            st["edits"] += 1
+            layers = {i: db.diag_layers[f"L{i}"] for i in range(1, n + 1)}
+            for i in range(1, n + 1):
+                if ed["eff"][i - 1] and cfg["types"][i - 1] != "ECU-SHARED-DATA":
+                    eff_check(i, ed["eff"][i - 1], f"comparams of layer {ed['layer']} removed")
     return {"fails": fails, "stats": st}
 
 
@@ -400,6 +452,17 @@ def check(prop: str, tier: str, replay: Optional[str]) -> int:
         design[name] = {"distinct": res.distinct, "configurations": len(recs), "tlc_s": round(res.wall_s, 1), "types": types}
         states += res.distinct
         trans += res.generated
+        if prop == "C15":
+            # the configuration of the same family in which one layer (one with children, if any) has no parameters of its own
+            index = {json.dumps([r["types"], r["parents"], r["defs"], r["ni"], r["cps"]]): r for r in recs}
+            for r in recs:
+                ks = [k for k in range(1, len(r["types"]) + 1) if r["cps"][k - 1] and r["types"][k - 1] != "ECU-SHARED-DATA"]
+                with_children = [k for k in ks if any(k in [int(p) for p in ps] for ps in r["parents"])]
+                for k in (with_children or ks)[:1]:
+                    cps2 = [([] if j == k - 1 else c) for j, c in enumerate(r["cps"])]
+                    sib = index.get(json.dumps([r["types"], r["parents"], r["defs"], r["ni"], cps2]))
+                    if sib is not None:
+                        r["edit"] = {"layer": k, "eff": sib["eff"]}
         if replay:
             recs = [r for r in recs if (r["types"], r["parents"], r["defs"], r["ni"], r["cps"]) == want]
         cfgs += recs
